@@ -203,10 +203,10 @@ def render_package(pkg, ifaces, modpath=None):
     seen = set()
     for i in ifaces:
         for s in i.get("structs", []):
-            if s["name"] in seen:
-                continue
-            seen.add(s["name"])
             w = s.get("where", "same")
+            if (w == "sub", s["name"]) in seen:
+                continue
+            seen.add((w == "sub", s["name"]))
             if w == "same":
                 body.append(render_struct(s))
                 body.append("")
@@ -273,7 +273,7 @@ def dummy_arg(p):
 # C10 oracle: the status matrix
 # ------------------------------------------------------------------------------------------------
 
-def c10_oracle(pkg, iface, statuses, bodies, faults, redirect=None, retry=None, logged=None):
+def c10_oracle(pkg, iface, statuses, bodies, faults, redirect=None, retry=None, logged=None, logged_statuses=None):
     """redirect: None | (firsts, seconds, bodies);  retry: None | {n: [script specs]}"""
     n = iface["name"]
     lines = ["package " + pkg, "", 'import (', '\t"context"', '\t"net/http"', "", '\t"github.com/lopolopen/shoot"', '\t"github.com/lopolopen/shoot/middleware"', '\t"verifcases/vrest"', ")", "",
@@ -305,6 +305,15 @@ def c10_oracle(pkg, iface, statuses, bodies, faults, redirect=None, retry=None, 
         firsts, seconds, rbodies = redirect
         lines.append('\tvrest.RedirectLegs(emit, sc, hc, verifMethods(c), []int{%s}, []int{%s}, []string{%s})' % (
             ", ".join(str(x) for x in firsts), ", ".join(str(x) for x in seconds), ", ".join('"%s"' % b for b in rbodies)))
+    if logged_statuses:
+        # the status x body matrix once more through logging -> two pass-through middlewares -> scripted base
+        lines += ["\t{", "\t\told := http.DefaultTransport", "\t\tsc4 := &vrest.Script{}", "\t\thttp.DefaultTransport = sc4",
+                  '\t\tc4 := shoot.NewRest[%s](shoot.BaseURL("http://verif.invalid/api"), shoot.Use(vrest.TagMW(1)), shoot.EnableLogging(true), shoot.Use(vrest.TagMW(2)))' % n,
+                  "\t\thttp.DefaultTransport = old",
+                  "\t\tms4 := verifMethods(c4)", "\t\tfor i := range ms4 {", '\t\t\tms4[i].Name += "@log"', "\t\t}",
+                  '\t\tvrest.StatusMatrix(emit, sc4, nil, ms4, vrest.Statuses("%s"), []string{%s}, nil)' % (
+                      logged_statuses, ", ".join('"%s"' % b for b in bodies)),
+                  "\t}"]
     for tag, logging, k in (logged or []):
         # transport faults through a chain with logging and k pass-through middlewares in front of the scripted base
         opts = ['shoot.BaseURL("http://verif.invalid/api")'] + ["shoot.Use(vrest.TagMW(%d))" % (j + 1) for j in range(k)]
@@ -404,15 +413,19 @@ HEADER_SETS = [None, None, [("Accept", "*/*")], [("X-Mode", "-fast"), ("X-Q", "?
 SAFE_STRINGS = ["abc", "u1", "A_b-9", "42"]
 UNSAFE_STRINGS = ["a b", "a/b", "x?y=z&w", "été", "50%25", "a+b", "#frag", "", "..", "a%2Fb", "k=v", "a&b", "sp ace/sl", "per%cent", "semi;colon", "q\"uote", "back\\slash", "~t:1,2"]
 BRACE_STRINGS = ["{id}", "x{n}y", "{", "{name}", "{userID}"]
+LARGE_STRINGS = ["L" + "x" * 1499, "M" + "ab " * 700, "H" + "y" * 69999]       # JSON bodies beyond 1 KiB and beyond 64 KiB
 SC_TYPES = ["string", "string", "int", "int64", "bool", "uint8", "float64"]
 FLOATS = [("1.5", "1.5"), ("0.25", "0.25"), ("2", "2"), ("-0.5", "-0.5")]
 DICT_TYPES = ["map[string]string", "map[string]int", "map[string]any"]
 
 
-def scalar_value(rng, ty, unsafe=0.5, brace=0.0):
+def scalar_value(rng, ty, unsafe=0.5, brace=0.0, large=0.0):
     """-> (go expression of type ty, the text %v prints)"""
     if ty == "string":
         r = rng.random()
+        if rng.random() < large:
+            s = rng.choice(LARGE_STRINGS)
+            return go_string(s), s
         if r < brace:
             s = rng.choice(BRACE_STRINGS)
         elif r < brace + unsafe:
@@ -561,7 +574,7 @@ class C06Gen:
                 "ctxpkg": rng.choice([None, None, None, "stdctx", "gocontext"])}
 
     # ---- argument vectors -----------------------------------------------------------------------
-    def args_for(self, m, k, nil_struct=0.0, brace=0.0, unsafe=0.5):
+    def args_for(self, m, k, nil_struct=0.0, brace=0.0, unsafe=0.5, large=0.04):
         """-> (list of go argument expressions in signature order, sexp arg list, json expression or None)"""
         rng = self.rng
         go_args, sx = [], []
@@ -596,7 +609,7 @@ class C06Gen:
                     if f["ptr"] and rng.random() < 0.4:
                         fs.append([Q(f["name"]), "nil"])
                         continue
-                    expr, txt = scalar_value(rng, f["type"], unsafe=unsafe)
+                    expr, txt = scalar_value(rng, f["type"], unsafe=unsafe, large=large)
                     inits.append("%s: %s" % (f["name"], ("vrest.Ptr(%s)" % expr) if f["ptr"] else expr))
                     fs.append([Q(f["name"]), ["s", Q(txt)]])
                 lit = "%s{%s}" % (p["type"], ", ".join(inits))
@@ -693,12 +706,17 @@ def c06_oracle(pkg, iface, calls, modpath):
              "\treturn string(b)", "}", "",
              "func VerifObserve(emit func(string, string)) {",
              "\tsc := &vrest.Script{}",
-             "\tc := shoot.NewRest[%s](shoot.BaseURL(%s)).ConfigHTTPClient(func(h *http.Client) { h.Transport = sc })" % (n, go_string(iface["base"]))]
+             "\tc := shoot.NewRest[%s](shoot.BaseURL(%s)).ConfigHTTPClient(func(h *http.Client) { h.Transport = sc })" % (n, go_string(iface["base"])),
+             "\t// the same calls through a client whose chain is logging -> two pass-through middlewares -> recording base",
+             "\told := http.DefaultTransport", "\tscL := &vrest.Script{}", "\thttp.DefaultTransport = scL",
+             "\tcL := shoot.NewRest[%s](shoot.BaseURL(%s), shoot.Use(vrest.TagMW(1)), shoot.EnableLogging(true), shoot.Use(vrest.TagMW(2)))" % (n, go_string(iface["base"])),
+             "\thttp.DefaultTransport = old"]
     for i, c in enumerate(calls):
         m = c["m"]
         call = "c.%s(%s)" % (m["name"], ", ".join(c["go"]))
         lhs = "_, _ = " if m["result"]["shape"] == "none" else "_, _, _ = "
         lines.append('\tvrest.ObserveRequest(emit, "c%d.", sc, func() { %s%s })' % (i, lhs, call))
+        lines.append('\tvrest.ObserveRequest(emit, "L%d.", scL, func() { %sc%s })' % (i, lhs, "L" + call[1:]))
         if c.get("json"):
             lines.append('\temit("c%d.argjson", vrest.Quote(verifJSON(%s)))' % (i, c["json"]))
     lines.append("}")
